@@ -138,7 +138,7 @@ def run(res, replay=None):
     # column rows have very different lengths (short rows fit into gaps of earlier catalog pages)
     for rep in range(3 if res.tier == "quick" else 20):
         r2 = random.Random(res.seed * 100 + rep)
-        m = Mirror(r2, mem_kb=1200)
+        m = Mirror(r2, mem_kb=12000)      # every skip-list index keeps about three pages pinned for good
         try:
             if m.open():
                 nt = 0
